@@ -403,6 +403,21 @@ def run(ctx):
             mode = bit % 3
             cuts = [] if mode == 0 else ([rng.randint(0, n)] if mode == 1 else list(range(1, n)))
             eval_flip(ctx, frames, compressed, seg_cuts, cuts, bit, cases, meta, model=(bit % 4 == 0 or not quick))
+    # 4b. a flipped bit in segment k of a multi-segment SINGLE read with more segments behind it, frames spanning segments
+    #     (nothing may be delivered after the failure: the frame buffer may hold part of an earlier frame)
+    for i in range(40 if quick else 800):
+        compressed = rng.random() < 0.5
+        frames = [gen_v5_frame(rng, maxbody=12) for _ in range(rng.randint(2, 3))]
+        if rng.random() < 0.7:
+            frames[-1] = (V5, 0, -1, 0x0C, F.event_body(rng))
+        total = sum(len(F.enc_frame(*f)) for f in frames)
+        seg_cuts = sorted(set(rng.randint(1, total - 1) for _ in range(rng.randint(3, 6))))
+        stream, _, seglens = build_stream(F.codec(compressed), frames, seg_cuts)
+        k = rng.randrange(0, len(seglens) - 1)
+        bit = 8 * sum(seglens[:k]) + rng.randrange(8 * seglens[k])
+        cuts = [] if rng.random() < 0.7 else F.splits_k(rng, len(stream), 1)
+        eval_flip(ctx, frames, compressed, seg_cuts, cuts, bit, cases, meta)
+        ctx.count('kind', 'flip-mid-stream-single-read')
     # 5. random flips in longer streams
     for i in range(40 if quick else 1200):
         compressed = rng.random() < 0.5
